@@ -1,7 +1,20 @@
 #!/bin/bash
-# try_mutant.sh <patch.diff> <prop> [<prop>...] : apply to /repo, run quick checks, undo.
+# try_mutant.sh <patch.diff> <prop> [<prop>...]
+# Default: apply to /repo, run the quick checks, undo (git -C /repo checkout -- .).
+# With ALT=1: apply to a scratch worktree instead and point the checks at it (VERIF_REPO), so
+# that /repo stays untouched (used while long runs are using /repo).
 set -u
 P="$1"; shift
+if [ "${ALT:-0}" = "1" ]; then
+  W="$(mktemp -d /tmp/alt-XXXXXX)"; rmdir "$W"
+  git -C /repo worktree add -q --detach "$W" HEAD || exit 2
+  git -C "$W" apply "$P" || { echo "PATCH DOES NOT APPLY"; git -C /repo worktree remove --force "$W"; exit 1; }
+  for prop in "$@"; do
+    ( cd /verif && VERIF_REPO="$W" VERIF_SEED=${VERIF_SEED:-1} ./check "$prop" ${TIER:-quick} 2>&1 | grep -E "^VIOLATION|^KNOWN|^CHECK-BROKEN|^check |key=" | head -8 )
+  done
+  git -C /repo worktree remove --force "$W"
+  exit 0
+fi
 cd /repo && git status --short | grep -q . && { echo "/repo not clean"; exit 2; }
 git apply "$P" || { echo "PATCH DOES NOT APPLY to /repo"; exit 1; }
 for prop in "$@"; do
